@@ -1,0 +1,34 @@
+// SPDX-FileCopyrightText: 2023 The Pion community <https://pion.ly>
+// SPDX-License-Identifier: MIT
+
+//go:build verif
+
+package rtp
+
+import (
+	"time"
+
+	"github.com/pion/randutil"
+)
+
+// VerifSetRandom replaces the package-level random generator (initial packetizer
+// timestamp, random sequencer start) and returns a function restoring the previous one.
+// Only compiled with the "verif" build tag; used by the deterministic simulator in /verif.
+func VerifSetRandom(g randutil.MathRandomGenerator) (restore func()) {
+	prev := globalMathRandomGenerator
+	globalMathRandomGenerator = g
+
+	return func() { globalMathRandomGenerator = prev }
+}
+
+// VerifSetPacketizerClock sets the clock a Packetizer created by NewPacketizer reads
+// for the abs-send-time extension. It reports false if p is not such a packetizer.
+func VerifSetPacketizerClock(p Packetizer, now func() time.Time) bool {
+	pp, ok := p.(*packetizer)
+	if !ok {
+		return false
+	}
+	pp.timegen = now
+
+	return true
+}
